@@ -14,12 +14,12 @@ import (
 // Helpers added for the webdav properties (C43..C46). They only use the
 // public shapes of the existing engines.
 
-// RetValue resolves the i-th result of a return instruction. Functions that
+// WdRetValue resolves the i-th result of a return instruction. Functions that
 // contain a defer have their results spilled into allocs by go/ssa ("t0 = v;
 // return *t0"): in that case the value stored last into the alloc in the
 // return's own block is the result. When there is no such store (the synthetic
 // recover block, or a named result assigned elsewhere) the answer is nil.
-func RetValue(r *ssa.Return, i int) ssa.Value {
+func WdRetValue(r *ssa.Return, i int) ssa.Value {
 	if i >= len(r.Results) {
 		return nil
 	}
@@ -42,7 +42,7 @@ func RetValue(r *ssa.Return, i int) ssa.Value {
 	return nil
 }
 
-func errIndex_webdav(fn *ssa.Function) int {
+func wdErrIndex(fn *ssa.Function) int {
 	res := fn.Signature.Results()
 	ei := -1
 	for i := 0; i < res.Len(); i++ {
@@ -53,10 +53,10 @@ func errIndex_webdav(fn *ssa.Function) int {
 	return ei
 }
 
-// RetOKAny is RetOK that also understands spilled results (functions with defer).
-func RetOKAny() Sel {
+// WdRetOKAny is RetOK that also understands spilled results (functions with defer).
+func WdRetOKAny() Sel {
 	return Sel{"return <nil error>", func(p *Prog, fn *ssa.Function) []ssa.Instruction {
-		ei := errIndex_webdav(fn)
+		ei := wdErrIndex(fn)
 		var out []ssa.Instruction
 		eachInstr(fn, func(in ssa.Instruction) {
 			r, ok := in.(*ssa.Return)
@@ -67,7 +67,7 @@ func RetOKAny() Sel {
 				out = append(out, in)
 				return
 			}
-			if c, ok := RetValue(r, ei).(*ssa.Const); ok && c.Value == nil {
+			if c, ok := WdRetValue(r, ei).(*ssa.Const); ok && c.Value == nil {
 				out = append(out, in)
 			}
 		})
@@ -75,13 +75,13 @@ func RetOKAny() Sel {
 	}}
 }
 
-// RetIs selects returns whose i-th result (spill-resolved) renders as term.
-func RetIs(i int, term string) Sel {
+// WdRetIs selects returns whose i-th result (spill-resolved) renders as term.
+func WdRetIs(i int, term string) Sel {
 	return Sel{fmt.Sprintf("return #%d=%s", i, term), func(p *Prog, fn *ssa.Function) []ssa.Instruction {
 		var out []ssa.Instruction
 		eachInstr(fn, func(in ssa.Instruction) {
 			if r, ok := in.(*ssa.Return); ok {
-				if v := RetValue(r, i); v != nil && Term(v) == term {
+				if v := WdRetValue(r, i); v != nil && Term(v) == term {
 					out = append(out, in)
 				}
 			}
@@ -90,14 +90,14 @@ func RetIs(i int, term string) Sel {
 	}}
 }
 
-// RetNot selects returns whose i-th result (spill-resolved) is known and does
+// WdRetNot selects returns whose i-th result (spill-resolved) is known and does
 // not render as term (the synthetic recover-block return is skipped).
-func RetNot(i int, term string) Sel {
+func WdRetNot(i int, term string) Sel {
 	return Sel{fmt.Sprintf("return #%d≠%s", i, term), func(p *Prog, fn *ssa.Function) []ssa.Instruction {
 		var out []ssa.Instruction
 		eachInstr(fn, func(in ssa.Instruction) {
 			if r, ok := in.(*ssa.Return); ok {
-				if v := RetValue(r, i); v != nil && Term(v) != term {
+				if v := WdRetValue(r, i); v != nil && Term(v) != term {
 					out = append(out, in)
 				}
 			}
@@ -106,9 +106,9 @@ func RetNot(i int, term string) Sel {
 	}}
 }
 
-// MapWrites selects map updates and delete() calls whose map operand is a
+// WdMapWrites selects map updates and delete() calls whose map operand is a
 // load of the named field.
-func MapWrites(field string) Sel {
+func WdMapWrites(field string) Sel {
 	return Sel{"map-write " + field, func(p *Prog, fn *ssa.Function) []ssa.Instruction {
 		fv := p.Field(field)
 		if fv == nil {
@@ -137,7 +137,7 @@ func MapWrites(field string) Sel {
 
 // MapWriters: every insertion into / deletion from the map held in field
 // happens in one of the allowed outermost functions.
-func (c *Ctx) MapWriters(field string, allowed ...string) bool {
+func (c *Ctx) WdMapWriters(field string, allowed ...string) bool {
 	rule := "writers"
 	construct := "map " + field + " ⊆ {" + strings.Join(allowed, ", ") + "}"
 	if c.P.Field(field) == nil {
@@ -148,7 +148,7 @@ func (c *Ctx) MapWriters(field string, allowed ...string) bool {
 	for _, a := range allowed {
 		allow[a] = true
 	}
-	sel := MapWrites(field)
+	sel := WdMapWrites(field)
 	n := 0
 	ok := true
 	seen := map[string]bool{}
@@ -181,7 +181,7 @@ func (c *Ctx) MapWriters(field string, allowed ...string) bool {
 
 // GuardAny: every selected site is dominated by branch edges establishing
 // every atom of at least one alternative (exact canonical atoms).
-func (c *Ctx) GuardAny_webdav(fnName string, sel Sel, alts ...[]string) bool {
+func (c *Ctx) WdGuardAny(fnName string, sel Sel, alts ...[]string) bool {
 	rule := "guard-before"
 	var names []string
 	for _, a := range alts {
@@ -228,7 +228,7 @@ func (c *Ctx) GuardAny_webdav(fnName string, sel Sel, alts ...[]string) bool {
 // GuardSelf: like Guard, but the atoms are computed from the site itself
 // (e.g. from the rendering of the value it returns), so that no local
 // variable name has to be written in the rule.
-func (c *Ctx) GuardSelf(fnName string, sel Sel, desc string, mk func(in ssa.Instruction) []string) bool {
+func (c *Ctx) WdGuardSelf(fnName string, sel Sel, desc string, mk func(in ssa.Instruction) []string) bool {
 	rule := "guard-before"
 	construct := fmt.Sprintf("%s: [%s] under %s", fnName, sel.Name, desc)
 	_, ins := c.sites(rule, fnName, sel)
@@ -258,7 +258,7 @@ func (c *Ctx) GuardSelf(fnName string, sel Sel, desc string, mk func(in ssa.Inst
 }
 
 // GuardMatch: every selected site is dominated by a branch fact satisfying pred.
-func (c *Ctx) GuardMatch(fnName string, sel Sel, desc string, pred func(a Atom) bool) bool {
+func (c *Ctx) WdGuardMatch(fnName string, sel Sel, desc string, pred func(a Atom) bool) bool {
 	rule := "guard-before"
 	construct := fmt.Sprintf("%s: [%s] under %s", fnName, sel.Name, desc)
 	_, ins := c.sites(rule, fnName, sel)
@@ -282,8 +282,8 @@ func (c *Ctx) GuardMatch(fnName string, sel Sel, desc string, pred func(a Atom) 
 	return true
 }
 
-// AtomTerms lists the terms of an atom's linear form.
-func AtomTerms(a Atom) []string {
+// WdAtomTerms lists the terms of an atom's linear form.
+func WdAtomTerms(a Atom) []string {
 	var ts []string
 	for t := range a.L.Coef {
 		ts = append(ts, t)
@@ -292,10 +292,10 @@ func AtomTerms(a Atom) []string {
 	return ts
 }
 
-// CmpBranches returns the If instructions of fn whose condition is an
+// WdCmpBranches returns the If instructions of fn whose condition is an
 // equality/inequality comparison with both operands satisfying the predicates
 // (in either order).
-func CmpBranches(fn *ssa.Function, px, py func(ssa.Value) bool) []*ssa.If {
+func WdCmpBranches(fn *ssa.Function, px, py func(ssa.Value) bool) []*ssa.If {
 	var out []*ssa.If
 	eachInstr(fn, func(in ssa.Instruction) {
 		ifi, ok := in.(*ssa.If)
@@ -321,9 +321,9 @@ func CmpBranches(fn *ssa.Function, px, py func(ssa.Value) bool) []*ssa.If {
 	return out
 }
 
-// EqEdge returns, for an If on == / !=, the successor taken when the operands
+// WdEqEdge returns, for an If on == / !=, the successor taken when the operands
 // are equal and the one taken when they differ.
-func EqEdge(ifi *ssa.If) (eq, ne *ssa.BasicBlock) {
+func WdEqEdge(ifi *ssa.If) (eq, ne *ssa.BasicBlock) {
 	neg := false
 	cond := ifi.Cond
 	for {
@@ -345,22 +345,22 @@ func EqEdge(ifi *ssa.If) (eq, ne *ssa.BasicBlock) {
 	return b.Succs[0], b.Succs[1]
 }
 
-// BlockReaches reports whether a site is reachable from the start of block b.
-func BlockReaches(b *ssa.BasicBlock, site ssa.Instruction) bool {
+// WdBlockReaches reports whether a site is reachable from the start of block b.
+func WdBlockReaches(b *ssa.BasicBlock, site ssa.Instruction) bool {
 	_, r := canReach(ipos{b, 0}, true, map[ssa.Instruction]bool{site: true}, nil)
 	return r
 }
 
-// InstrDominates reports whether a strictly precedes b on every path.
-func InstrDominates(a, b ssa.Instruction) bool {
+// WdInstrDominates reports whether a strictly precedes b on every path.
+func WdInstrDominates(a, b ssa.Instruction) bool {
 	pa, pb := posOf(a), posOf(b)
 	return pa.b == pb.b && pa.i < pb.i || pa.b != pb.b && pa.b.Dominates(pb.b)
 }
 
-// DerivesOnlyThrough reports whether every backward path from v to a value
+// WdDerivesOnlyThrough reports whether every backward path from v to a value
 // satisfying src passes through a value satisfying via (i.e. with the via
 // values cut, src is no longer reachable), and v does depend on via.
-func DerivesOnlyThrough(v ssa.Value, src, via func(ssa.Value) bool) (dependsOnVia, leaks bool) {
+func WdDerivesOnlyThrough(v ssa.Value, src, via func(ssa.Value) bool) (dependsOnVia, leaks bool) {
 	Backward(v, func(x ssa.Value) bool {
 		if via(x) {
 			dependsOnVia = true
@@ -375,9 +375,9 @@ func DerivesOnlyThrough(v ssa.Value, src, via func(ssa.Value) bool) (dependsOnVi
 	return
 }
 
-// IsParam is a predicate: the value is the idx-th parameter (receiver
+// WdIsParam is a predicate: the value is the idx-th parameter (receiver
 // excluded) of fn, or a load of its spill slot.
-func IsParam(fn *ssa.Function, idx int) func(ssa.Value) bool {
+func WdIsParam(fn *ssa.Function, idx int) func(ssa.Value) bool {
 	return func(v ssa.Value) bool {
 		if p, ok := v.(*ssa.Parameter); ok && p.Parent() == fn {
 			return paramName(p) == fmt.Sprintf("$%d", idx)
@@ -386,8 +386,8 @@ func IsParam(fn *ssa.Function, idx int) func(ssa.Value) bool {
 	}
 }
 
-// IsReceiver is a predicate: the value is fn's receiver parameter.
-func IsReceiver(fn *ssa.Function) func(ssa.Value) bool {
+// WdIsReceiver is a predicate: the value is fn's receiver parameter.
+func WdIsReceiver(fn *ssa.Function) func(ssa.Value) bool {
 	return func(v ssa.Value) bool {
 		if p, ok := v.(*ssa.Parameter); ok && p.Parent() == fn {
 			return paramName(p) == "$r"
@@ -396,9 +396,9 @@ func IsReceiver(fn *ssa.Function) func(ssa.Value) bool {
 	}
 }
 
-// CallsInPkg selects ordinary calls to any function of the given package path
+// WdCallsInPkg selects ordinary calls to any function of the given package path
 // (e.g. "os").
-func CallsInPkg(pkgPath string) Sel {
+func WdCallsInPkg(pkgPath string) Sel {
 	return Sel{"call " + pkgPath + ".*", func(p *Prog, fn *ssa.Function) []ssa.Instruction {
 		var out []ssa.Instruction
 		eachInstr(fn, func(in ssa.Instruction) {
@@ -414,14 +414,14 @@ func CallsInPkg(pkgPath string) Sel {
 	}}
 }
 
-// IsStringType reports whether v has a string type.
-func IsStringType(v ssa.Value) bool {
+// WdIsStringType reports whether v has a string type.
+func WdIsStringType(v ssa.Value) bool {
 	b, ok := v.Type().Underlying().(*types.Basic)
 	return ok && b.Info()&types.IsString != 0
 }
 
 // Between: every path from a `from` site (inclusive) to a `to` site passes a `via` site.
-func (c *Ctx) Between_webdav(fnName string, from, to, via Sel) bool {
+func (c *Ctx) WdBetween(fnName string, from, to, via Sel) bool {
 	rule := "pass-through"
 	construct := fmt.Sprintf("%s: from [%s] to [%s] only through [%s]", fnName, from.Name, to.Name, via.Name)
 	fn, ins := c.sites(rule, fnName, from)
@@ -444,8 +444,8 @@ func (c *Ctx) Between_webdav(fnName string, from, to, via Sel) bool {
 	return true
 }
 
-// FreeVarStores selects stores into captured variables of a closure.
-func FreeVarStores() Sel {
+// WdFreeVarStores selects stores into captured variables of a closure.
+func WdFreeVarStores() Sel {
 	return Sel{"store to captured variable", func(p *Prog, fn *ssa.Function) []ssa.Instruction {
 		var out []ssa.Instruction
 		eachInstr(fn, func(in ssa.Instruction) {
@@ -459,14 +459,14 @@ func FreeVarStores() Sel {
 	}}
 }
 
-// Instrs wraps a fixed instruction list as a selector.
-func Instrs_webdav(name string, ins ...ssa.Instruction) Sel {
+// WdInstrs wraps a fixed instruction list as a selector.
+func WdInstrs(name string, ins ...ssa.Instruction) Sel {
 	return Sel{name, func(*Prog, *ssa.Function) []ssa.Instruction { return ins }}
 }
 
 // ImportedConst returns the integer value of constant pkgPath.name as seen by
 // the package with the given short path (e.g. "webdav", "os", "O_CREATE").
-func (p *Prog) ImportedConst(fromShort, pkgPath, name string) (int64, bool) {
+func (p *Prog) WdImportedConst(fromShort, pkgPath, name string) (int64, bool) {
 	pk := p.ByPath[fromShort]
 	if pk == nil {
 		return 0, false
@@ -485,7 +485,7 @@ func (p *Prog) ImportedConst(fromShort, pkgPath, name string) (int64, bool) {
 }
 
 // RetAll: the idx-th result (spill-resolved) of every return satisfies pred.
-func (c *Ctx) RetAll(fnName string, idx int, desc string, pred func(ssa.Value) bool) bool {
+func (c *Ctx) WdRetAll(fnName string, idx int, desc string, pred func(ssa.Value) bool) bool {
 	rule, construct := "derives-from", fnName+": every returned value is "+desc
 	fn := c.MustFn(fnName)
 	if fn == nil {
@@ -493,7 +493,7 @@ func (c *Ctx) RetAll(fnName string, idx int, desc string, pred func(ssa.Value) b
 	}
 	n := 0
 	for _, in := range Returns().F(c.P, fn) {
-		v := RetValue(in.(*ssa.Return), idx)
+		v := WdRetValue(in.(*ssa.Return), idx)
 		if v == nil {
 			continue
 		}
@@ -511,9 +511,9 @@ func (c *Ctx) RetAll(fnName string, idx int, desc string, pred func(ssa.Value) b
 	return true
 }
 
-// EdgeFacts returns the facts that hold on the CFG edge from pred to succ:
+// WdEdgeFacts returns the facts that hold on the CFG edge from pred to succ:
 // the facts at pred plus the condition of pred's own If on that edge.
-func EdgeFacts_webdav(pred, succ *ssa.BasicBlock) []Fact {
+func WdEdgeFacts(pred, succ *ssa.BasicBlock) []Fact {
 	fs := append([]Fact{}, FactsAt(pred)...)
 	if len(pred.Instrs) > 0 {
 		if ifi, ok := pred.Instrs[len(pred.Instrs)-1].(*ssa.If); ok && pred.Succs[0] != pred.Succs[1] {
@@ -528,7 +528,7 @@ func EdgeFacts_webdav(pred, succ *ssa.BasicBlock) []Fact {
 }
 
 // HoldsExact reports whether the atom written as spec is among the facts.
-func (p *Prog) HoldsExact(fs []Fact, spec string) bool {
+func (p *Prog) WdHoldsExact(fs []Fact, spec string) bool {
 	a, err := p.ParseAtom(spec)
 	if err != nil {
 		return false
@@ -536,9 +536,9 @@ func (p *Prog) HoldsExact(fs []Fact, spec string) bool {
 	return holds(fs, a, true)
 }
 
-// CmpOperands returns the operands of the ==/!= comparison an If (as returned
-// by CmpBranches) branches on.
-func CmpOperands(ifi *ssa.If) (x, y ssa.Value) {
+// WdCmpOperands returns the operands of the ==/!= comparison an If (as returned
+// by WdCmpBranches) branches on.
+func WdCmpOperands(ifi *ssa.If) (x, y ssa.Value) {
 	cond := ifi.Cond
 	for {
 		u, ok := cond.(*ssa.UnOp)
